@@ -25,6 +25,22 @@ D = {
     "C13b": ("Mesh1D.eval_basis cache key without the element number", "several elements, xi exactly on an interior element boundary, two requests for different elements on one mesh"),
     "C10b": ("CosseratRod_PetrovGalerkin.E_pot_el divides the cached strains in place", "E_pot evaluated before another quantity at the same nodal coordinates (cache hit), reference stretch J != 1"),
     "C06b": ("Sphere2Sphere.n cache key without t", "a Sphere2Sphere contact with a partner on a moving Frame, evaluated at two times with a bit-identical q"),
+    "C01b": ("Exp_SO3_quat (normalising): a division-by-zero guard, matrix /= P @ P + eps", "a quaternion far from unit length on the small side (|P| <= 1e-5): errors eps/|P|^2"),
+    "C02b": ("Log_SO3 near half-turns: n n^T taken from the exact half-turn formula (A + A^T + 2 I)/4", "rotation angle in (pi - 0.0447, pi) about an axis that is not a coordinate axis"),
+    "C03b": ("T_SO3_quat_P adds the normalisation correction also for normalize=False", "the non-default normalize=False, compared in the direction along P itself"),
+    "C04b": ("check_time_derivatives returns f_t where a non-callable second derivative f_tt was supplied", "a Frame with callable motion and a constant (non-callable) second derivative"),
+    "C05b": ("ProjectedPositionOrientationBase.g_ddot: e_dot taken from column i (loop counter) instead of the constrained axis", "Prismatic/Cylindrical with axis 0 or 1 (Planarizer axis 1, 2), a rotating first body and relative motion at the joint"),
+    "C07b": ("TwoPointInteraction: v_P1 / v_P1_q evaluated at B_r_CP2 instead of B_r_CP1", "a rotating rigid body as subsystem 1 with B_r_CP1 != B_r_CP2 and a force law that uses l_dot (damper)"),
+    "C08b": ("TwoPointInteraction.W_l_q: sign of the n . dJ_P1/dq1 term flipped", "subsystem 1 with velocity DOFs and an eccentric attachment point (J_P_q != 0), non-zero force"),
+    "C09b": ("Revolute.q0 is gathered on the first assembly only", "a force law with default l_ref attached to a joint that was assembled before with another initial state"),
+    "C11b": ("rod r_OP adds the offset to the cached centerline point in place", "non-zero B_r_CP and a second query of the same (qe, xi) while the cache entry is alive"),
+    "C12b": ("Harsch2021.B_n_B_Gamma loses the factor lambda0 in the rank-one term (the defect fixed earlier, re-introduced)", "reference strain with |B_Gamma0| != 1"),
+    "C15b": ("CooMatrix dense writes copy raw bytes (frombytes) instead of converting each entry", "a dense block whose dtype is not float64 (int64 block, Python ints)"),
+    "C23c": ("Riks.solve labels the first returned point with la_arc_span[0]", "a load window that does not start at 0"),
+    "C25b": ("Revolute.reset no longer restores previous_quadrant", "reset after a history whose last query was in quadrant 4 (or 2/3 followed by 4), then further queries"),
+    "C27b": ("Sphere.prox: `norm_x < radius` instead of `<=`", "degenerate ball (radius 0) and x exactly zero: 0 * 0 / 0"),
+    "C28c": ("system_from_urdf: child.v_R uses the joint-relative J_omega_JRc instead of the absolute J_omega_IRc in the transport term", "a joint with non-zero relative translation below a rotating parent"),
+    "C29c": ("Export.__add_key stacks array-valued data of a list export in reversed order", "export_contr of a list of contributions whose point/cell data are numpy arrays (rods' directors, frictional contacts' P_F)"),
     "C22b": ("fixed_point_iteration calls fun(x) without the defensive copy", "a fixed-point map that updates its argument in place (DualStormerVerlet's own map with accelerated=False does)"),
 }
 rows = []
